@@ -58,16 +58,50 @@ pub fn item(i: u64) -> (u64, String) {
     (id, name)
 }
 
+/// Collections addressed by a key >= LONG_BASE form the tagged class
+/// "long-names": size key - LONG_BASE, and every item whose number is a
+/// multiple of 5 carries a name of >= 400 bytes.  A page selector holding such
+/// a name cannot be serialised into a token (documented 512-byte limit), so a
+/// by-name scan whose page ENDS on such an item must be aborted loudly by the
+/// server — never answered with a token-less non-empty page.
+const LONG_BASE: usize = 1_000_000;
+const LONG_NAME_MIN: usize = 400;
+
+fn is_long_item(i: u64) -> bool {
+    i % 5 == 0
+}
+
+/// item `i` of the collection addressed by `key`
+pub fn item_of(key: usize, i: u64) -> (u64, String) {
+    let (id, mut name) = item(i);
+    if key >= LONG_BASE && is_long_item(i) {
+        name.push('~');
+        let fill = ["x", "long-", "é", "Q\""][(i / 5 % 4) as usize];
+        while name.len() < LONG_NAME_MIN + (i as usize % 64) {
+            name.push_str(fill);
+        }
+    }
+    (id, name)
+}
+
+fn size_of_key(key: usize) -> usize {
+    if key >= LONG_BASE {
+        key - LONG_BASE
+    } else {
+        key
+    }
+}
+
 struct Coll {
     by_name: BTreeMap<String, Arc<Project>>,
     by_id: BTreeMap<u64, Arc<Project>>,
 }
 
 impl Coll {
-    fn new(n: usize) -> Coll {
+    fn new(key: usize) -> Coll {
         let mut c = Coll { by_name: BTreeMap::new(), by_id: BTreeMap::new() };
-        for i in 0..n as u64 {
-            let (id, name) = item(i);
+        for i in 0..size_of_key(key) as u64 {
+            let (id, name) = item_of(key, i);
             let p = Arc::new(Project { id, name: name.clone() });
             c.by_name.insert(name, p.clone());
             c.by_id.insert(id, p);
@@ -428,10 +462,13 @@ impl Order {
 }
 
 /// the collection of size n in the requested order — the model
-fn expected(n: usize, order: Order) -> Vec<(u64, String)> {
+fn expected(key: usize, order: Order) -> Vec<(u64, String)> {
     static MASTER: OnceLock<Vec<(u64, String)>> = OnceLock::new();
     let master = MASTER.get_or_init(|| (0..=MAX_N as u64).map(item).collect());
-    let mut v: Vec<(u64, String)> = if n <= master.len() {
+    let n = size_of_key(key);
+    let mut v: Vec<(u64, String)> = if key >= LONG_BASE {
+        (0..n as u64).map(|i| item_of(key, i)).collect()
+    } else if n <= master.len() {
         master[..n].to_vec()
     } else {
         (0..n as u64).map(item).collect()
@@ -466,6 +503,8 @@ pub struct Scenario {
     pub idx: u64,
     /// number of items the scan must yield
     pub total: usize,
+    /// collection of the tagged "long-names" class
+    pub long: bool,
 }
 
 fn matching(n: usize, order: Order) -> usize {
@@ -488,13 +527,28 @@ impl Scenario {
             Some(l) => l.min(SERVER_MAX),
         }
     }
+    /// what goes into the path
+    fn key(&self) -> usize {
+        if self.long {
+            self.n + LONG_BASE
+        } else {
+            self.n
+        }
+    }
+    fn by_name(&self) -> bool {
+        matches!(
+            self.order,
+            Order::Basic | Order::SortsDefault | Order::NameAsc | Order::NameDesc
+        )
+    }
     fn requests(&self) -> u64 {
         (self.total as u64).div_ceil(self.eff()) + 1
     }
     fn json(&self, seed: u64) -> Value {
         json!({"seed": seed, "scenario": self.idx, "n": self.n, "limit": self.limit,
                "effective_limit": self.eff(), "order": format!("{:?}", self.order),
-               "n_class": self.n_class, "limit_class": self.limit_class})
+               "n_class": self.n_class, "limit_class": self.limit_class,
+               "collection_key": self.key(), "long_names": self.long})
     }
 }
 
@@ -572,6 +626,7 @@ pub fn scenarios(seed: u64, quick: bool) -> Vec<Scenario> {
                     order: o,
                     idx: 0,
                     total: matching(*n, o),
+                    long: false,
                 };
                 // cap total work: limit=1 only for N <= 2000 etc.
                 if s.requests() > max_requests || (l == Some(1) && *n > 2000) {
@@ -593,6 +648,7 @@ pub fn scenarios(seed: u64, quick: bool) -> Vec<Scenario> {
                     order: o,
                     idx: 0,
                     total: matching(10_001, o),
+                    long: false,
                 });
             }
         }
@@ -633,6 +689,7 @@ pub fn scenarios(seed: u64, quick: bool) -> Vec<Scenario> {
             order: o,
             idx: 0,
             total: matching(n, o),
+            long: false,
         };
         // random triples: shorter scans than the grid allows (the long
         // small-limit scans of large collections are grid points already)
@@ -640,6 +697,45 @@ pub fn scenarios(seed: u64, quick: bool) -> Vec<Scenario> {
             continue;
         }
         out.push(s);
+    }
+    // tagged class "long-names": collections holding items whose name cannot
+    // be put into a page token; for some limits such an item ends a page, for
+    // others it does not (by-id and filtered scans never depend on it)
+    let long_ns: Vec<usize> = if quick {
+        vec![1, 2, 3, 6, 11, 17, 26, 40, 61, 120]
+    } else {
+        (1..=64).chain([100, 101, 120, 199, 250, 300]).collect()
+    };
+    for n in long_ns {
+        let mut ls: Vec<(Option<u64>, String)> = vec![
+            (None, "absent".into()),
+            (Some(1), "1".into()),
+            (Some(2), "2".into()),
+            (Some(3), "3".into()),
+            (Some(4), "4".into()),
+            (Some(5), "5".into()),
+            (Some(7), "7".into()),
+            (Some(n as u64), "N".into()),
+            (Some(n as u64 + 1), "N+1".into()),
+            (Some(10_001), "10001".into()),
+        ];
+        if n >= 2 {
+            ls.push((Some(n as u64 - 1), "N-1".into()));
+        }
+        for (l, lc) in ls {
+            for o in orders(&mut rng) {
+                out.push(Scenario {
+                    n,
+                    n_class: "long-names".into(),
+                    limit: l,
+                    limit_class: lc.clone(),
+                    order: o,
+                    idx: 0,
+                    total: matching(n, o),
+                    long: true,
+                });
+            }
+        }
     }
     for (i, s) in out.iter_mut().enumerate() {
         s.idx = i as u64;
@@ -671,6 +767,8 @@ struct Scanner {
 }
 
 enum Fetch {
+    /// answered, but not with 200
+    Status(u16, Vec<u8>),
     Page(Page),
     Violated,
     Inconclusive,
@@ -709,12 +807,7 @@ impl Scanner {
                     }
                     self.rep.count("pages_fetched", 1);
                     if resp.status != 200 {
-                        self.rep.violate(
-                            format!("C15:page-request-refused:status-{}", resp.status),
-                            json!({"scenario": w, "target": target, "status": resp.status,
-                                   "body": String::from_utf8_lossy(&resp.body[..resp.body.len().min(400)])}),
-                        );
-                        return Fetch::Violated;
+                        return Fetch::Status(resp.status, resp.body);
                     }
                     return match serde_json::from_slice::<Page>(&resp.body) {
                         Ok(p) => Fetch::Page(p),
@@ -758,7 +851,7 @@ impl Scanner {
     fn scan(&mut self, s: &Scenario) {
         let mut rng = Rng::derive(self.seed, "c15-scan", 0, s.idx);
         let w = s.json(self.seed);
-        let exp = expected(s.n, s.order);
+        let exp = expected(s.key(), s.order);
         let total = exp.len();
         let eff = s.eff();
         let bound = (total as u64).div_ceil(eff) + 1;
@@ -776,7 +869,7 @@ impl Scanner {
         let enc_random = rng.chance(1, 4);
         let fresh_conn_each_page = rng.chance(1, 8);
         let limit_first = rng.bool();
-        let _hold = acquire(s.n);
+        let _hold = acquire(s.key());
 
         let (ep, first_q) = s.order.first_query();
         let limit_q = s.limit.map(|l| format!("limit={l}"));
@@ -789,9 +882,9 @@ impl Scanner {
                 }
             }
             if q.is_empty() {
-                format!("/c/{}/{}", s.n, ep)
+                format!("/c/{}/{}", s.key(), ep)
             } else {
-                format!("/c/{}/{}?{}", s.n, ep, q.join("&"))
+                format!("/c/{}/{}?{}", s.key(), ep, q.join("&"))
             }
         };
         let mut fq = first_q.clone();
@@ -826,6 +919,36 @@ impl Scanner {
             }
             let page = match self.fetch(&target, fresh_conn_each_page, &w) {
                 Fetch::Page(p) => p,
+                Fetch::Status(status, body) => {
+                    // The one refusal that is not a violation: the page the
+                    // model predicts here ends on an item whose selector
+                    // cannot become a token (documented 512-byte limit), and
+                    // the server says so loudly with a 5xx.  What was
+                    // delivered before must still be the exact prefix.
+                    let next_end = (got.len() + eff as usize).min(total);
+                    let oversize_last = s.long
+                        && s.by_name()
+                        && got.len() < total
+                        && exp[next_end - 1].1.len() >= LONG_NAME_MIN;
+                    let prefix_ok = got.len() <= total && got[..] == exp[..got.len()];
+                    if oversize_last && (500..600).contains(&status) && prefix_ok {
+                        self.rep.eval(format!("{class}|oversize-selector:aborted-loudly"));
+                        self.rep.count("oversize_selector_scans_aborted_loudly", 1);
+                        self.rep.inconclusive(
+                            "oversize-selector: scan aborted loudly (documented token size limit)",
+                        );
+                        return;
+                    }
+                    self.rep.eval(class.clone());
+                    self.rep.violate(
+                        format!("C15:page-request-refused:status-{status}"),
+                        json!({"scenario": w, "target": target, "status": status,
+                               "items_before": got.len(), "prefix_is_exact": prefix_ok,
+                               "oversize_selector_predicted": oversize_last,
+                               "body": String::from_utf8_lossy(&body[..body.len().min(400)])}),
+                    );
+                    return;
+                }
                 Fetch::Violated => {
                     self.rep.eval(class.clone());
                     return;
@@ -854,7 +977,10 @@ impl Scanner {
                 (None, k) if k > 0 => {
                     self.rep.violate(
                         "C15:no-token-with-non-empty-page",
-                        json!({"scenario": w, "page": requests, "items": k, "target": target}),
+                        json!({"scenario": w, "page": requests, "items": k, "target": target,
+                               "items_received_so_far": got.len() + k, "collection": total,
+                               "items_remain_per_model": got.len() + k < total,
+                               "last_item_name_len": page.items.last().map(|i| i.name.len())}),
                     );
                     violated = true;
                 }
@@ -930,6 +1056,16 @@ impl Scanner {
             violated = true;
         }
         if !violated {
+            if s.long {
+                self.rep.count(
+                    if s.by_name() {
+                        "long_names_by_name_scans_held"
+                    } else {
+                        "long_names_by_id_scans_held"
+                    },
+                    1,
+                );
+            }
             self.rep.count("scans_held", 1);
         }
     }
@@ -939,7 +1075,9 @@ pub fn rule() -> &'static str {
     "one case = one full scan (first page, then every returned next_page token until none) of a collection \
      of N uniquely identified items through a live paginated endpoint; class = (N class, limit class, \
      order/endpoint, N vs effective limit, N mod effective limit zero or not); grid N x limit x order \
-     from DESIGN C15 plus random (N, limit, order) triples drawn from (seed)"
+     from DESIGN C15 plus random (N, limit, order) triples drawn from (seed), plus the tagged class \
+     long-names (items whose page selector exceeds the token size limit: a page ending on one must be \
+     refused loudly — counted, not judged — and never be answered as a token-less non-empty page)"
 }
 
 /// sanity of the model itself: ids and names unique
@@ -947,6 +1085,13 @@ pub fn self_check() -> Result<(), String> {
     let c = Coll::new(25_001);
     if c.by_name.len() != 25_001 || c.by_id.len() != 25_001 {
         return Err("harness collection has duplicate ids or names".into());
+    }
+    let l = Coll::new(LONG_BASE + 300);
+    if l.by_name.len() != 300
+        || l.by_name.keys().filter(|k| k.len() >= LONG_NAME_MIN).count() != 60
+        || l.by_name.keys().any(|k| k.len() > 100 && k.len() < LONG_NAME_MIN)
+    {
+        return Err("long-names collection is not as specified".into());
     }
     Ok(())
 }
